@@ -4,6 +4,7 @@ import (
 	"bytes"
 	"errors"
 	"fmt"
+	"math"
 	"net"
 	"reflect"
 	"runtime"
@@ -53,6 +54,9 @@ import (
 //   lloop <buffers> <n>   the buffers are put as they are onto an in-memory connection (hook
 //                         LocalConn.VerifSendRaw) whose other end is in a real Router's receive loop; once
 //                         they are consumed the sender closes the connection and calls Send n more times
+
+//   pb <schema> <buffer>  layer 2: protobuf.Decode of the buffer into the harness struct whose schema (derived
+//                         from the Go type by reflection) is <schema>; "err", or "ok <value> <its re-encoding>"
 
 // c03Unenc is registered, but the protobuf encoder refuses its values (a channel).
 type c03Unenc struct{ C chan int }
@@ -930,6 +934,166 @@ func (st *c03state) csend(queues [][][]byte) string {
 	return strings.Join(hexes, ",") + " end:" + end
 }
 
+// ---------------------------------------------------------------------------------------------
+// layer 2: the wire format of the protobuf library for a schema language
+
+// c03Opt: optional scalars and the slices the other shapes do not have.
+type c03Opt struct {
+	A *int64
+	B *string
+	C *bool
+	D *c03Inner
+	E []string
+	F []bool
+	G []float64
+	H [][]byte
+	U *uint32
+	V []int32
+	W []uint64
+}
+
+// c03Deep: messages inside messages inside messages.
+type c03Deep struct {
+	N c03Nested
+	L []c03Nested
+	O *c03Ints
+	X int64
+}
+
+// c03schema derives the schema text of Model/C03Wire.lean from a Go type.
+func c03schema(t reflect.Type) string {
+	switch t.Kind() {
+	case reflect.Int32:
+		return "i32"
+	case reflect.Int, reflect.Int64:
+		return "i64"
+	case reflect.Uint32:
+		return "u32"
+	case reflect.Uint64:
+		return "u64"
+	case reflect.Bool:
+		return "b"
+	case reflect.Float64:
+		return "f"
+	case reflect.String:
+		return "y"
+	case reflect.Slice:
+		if t.Elem().Kind() == reflect.Uint8 {
+			return "y"
+		}
+		return "r" + c03schema(t.Elem())
+	case reflect.Ptr:
+		return "o" + c03schema(t.Elem())
+	case reflect.Struct:
+		var fs []string
+		for i := 0; i < t.NumField(); i++ {
+			fs = append(fs, c03schema(t.Field(i).Type))
+		}
+		return "m(" + strings.Join(fs, ",") + ")"
+	}
+	return "?"
+}
+
+var c03pbMakers = []func() interface{}{
+	func() interface{} { return &c03Inner{} }, func() interface{} { return &c03Nested{} },
+	func() interface{} { return &c03Ints{} }, func() interface{} { return &c03Bytes{} },
+	func() interface{} { return &c03Opt{} }, func() interface{} { return &c03Deep{} },
+}
+
+func c03pbMaker(schema string) func() interface{} {
+	for _, mk := range c03pbMakers {
+		if c03schema(reflect.TypeOf(mk()).Elem()) == schema {
+			return mk
+		}
+	}
+	return nil
+}
+
+// c03pbShow prints a decoded value in the model's text form; lossless tells whether every signed
+// integer in it lies inside the range the library's zig-zag decoder inverts.
+func c03pbShow(v reflect.Value, lossless *bool) string {
+	switch v.Kind() {
+	case reflect.Int, reflect.Int32, reflect.Int64:
+		if i := v.Int(); i >= 1<<62 || i < -(1<<62) {
+			*lossless = false
+		}
+		return strconv.FormatInt(v.Int(), 10)
+	case reflect.Uint32, reflect.Uint64:
+		return strconv.FormatUint(v.Uint(), 10)
+	case reflect.Bool:
+		if v.Bool() {
+			return "T"
+		}
+		return "F"
+	case reflect.Float64:
+		return "f" + strconv.FormatUint(math.Float64bits(v.Float()), 10)
+	case reflect.String:
+		return "x" + h.Hex([]byte(v.String()))
+	case reflect.Slice:
+		if v.Type().Elem().Kind() == reflect.Uint8 {
+			return "x" + h.Hex(v.Bytes())
+		}
+		var l []string
+		for i := 0; i < v.Len(); i++ {
+			l = append(l, c03pbShow(v.Index(i), lossless))
+		}
+		return "[" + strings.Join(l, ",") + "]"
+	case reflect.Ptr:
+		if v.IsNil() {
+			return "~"
+		}
+		return "?" + c03pbShow(v.Elem(), lossless)
+	case reflect.Struct:
+		var l []string
+		for i := 0; i < v.NumField(); i++ {
+			l = append(l, c03pbShow(v.Field(i), lossless))
+		}
+		return "(" + strings.Join(l, ",") + ")"
+	}
+	return "?"
+}
+
+func (st *c03state) pb(schema string, buf []byte) string {
+	mk := c03pbMaker(schema)
+	if mk == nil {
+		return "bad-op"
+	}
+	dec := func(b []byte) (v interface{}, err error) {
+		defer func() {
+			if r := recover(); r != nil {
+				err = fmt.Errorf("panic: %v", r)
+				st.cs.Fail("unmarshal-panic", fmt.Sprintf("protobuf.Decode panicked on %s (schema %s): %v", h.Hex(b), schema, r))
+			}
+		}()
+		v = mk()
+		err = protobuf.Decode(b, v)
+		return
+	}
+	v, err := dec(buf)
+	if err != nil {
+		st.tag("pb:err")
+		return "err"
+	}
+	lossless := true
+	txt := c03pbShow(reflect.ValueOf(v).Elem(), &lossless)
+	re, err := protobuf.Encode(v)
+	if err != nil {
+		st.cs.Fail("codec-roundtrip", "a value that came out of Decode is refused by Encode: "+err.Error())
+		return "ok " + txt + " unencodable"
+	}
+	// the property's own oracle — the codec hypothesis itself: what Encode makes of a value decodes
+	// to that value again (for integers inside the lossless range)
+	if lossless {
+		v2, err := dec(re)
+		l2 := true
+		if err != nil || c03pbShow(reflect.ValueOf(v2).Elem(), &l2) != txt {
+			st.cs.Fail("codec-roundtrip", fmt.Sprintf("schema %s: the value %s is encoded as %s, which decodes to something else", schema, txt, h.Hex(re)))
+		}
+	}
+	st.tag(fmt.Sprintf("pb:ok:lossless=%v:same=%v", lossless, bytes.Equal(re, buf)))
+	return "ok " + txt + " " + h.Hex(re)
+}
+
 // r4op routes the operations of this file; ok = false when the tokens are none of them.
 func (st *c03state) r4op(tk []string) (string, bool) {
 	switch {
@@ -1020,6 +1184,12 @@ func (st *c03state) r4op(tk []string) (string, bool) {
 			return "bad-op", true
 		}
 		return st.self(bufs), true
+	case len(tk) == 4 && tk[1] == "pb":
+		buf, ok := c03unhex(tk[3])
+		if !ok {
+			return "bad-op", true
+		}
+		return st.pb(tk[2], buf), true
 	case len(tk) == 4 && tk[1] == "lloop":
 		fr, ok := c03hexList(tk[2])
 		n, err := strconv.Atoi(tk[3])
@@ -1041,6 +1211,15 @@ func (st *c03state) r4op(tk []string) (string, bool) {
 		return st.csend(qs), true
 	}
 	return "", false
+}
+
+// pbValueOf draws values until one has the wanted type.
+func pbValueOf(draw func() interface{}, t reflect.Type) interface{} {
+	for {
+		if v := draw(); reflect.TypeOf(v) == t {
+			return v
+		}
+	}
 }
 
 // c03genR4 yields the round-4 classes.
@@ -1220,6 +1399,102 @@ func c03genR4(g *c03g, emit func(class string, ops ...string)) {
 			"c03 cfg 4096 "+reg+" -",
 			"c03 procs "+c03joinHex(sub),
 			fmt.Sprintf("c03 loop %s - %s", c03joinHex(frames), h.Ints(g.chunks(g.stream(frames, nil)))))
+	}
+	// ---- layer 2: the wire format itself. Valid encodings of every shape, damaged ones, arbitrary
+	// bytes, two encodings back to back (later entries override / append)
+	pbValue := func() interface{} {
+		switch r.Intn(6) {
+		case 0:
+			v := c03inner(r)
+			return &v
+		case 1:
+			for {
+				if v, kind := c03value(r); kind == "nested" || kind == "ints" || kind == "bytes" || kind == "empty" {
+					return v
+				}
+			}
+		case 2, 3:
+			v := &c03Opt{}
+			if r.Intn(2) == 0 {
+				x := c03edge64[r.Intn(len(c03edge64))]
+				v.A = &x
+			}
+			if r.Intn(2) == 0 {
+				x := string(c03bytes(r, r.Intn(6)))
+				v.B = &x
+			}
+			if r.Intn(2) == 0 {
+				x := r.Intn(2) == 0
+				v.C = &x
+			}
+			if r.Intn(2) == 0 {
+				x := c03inner(r)
+				v.D = &x
+			}
+			for i := r.Intn(4); i > 0; i-- {
+				v.E = append(v.E, string(c03bytes(r, r.Intn(5))))
+				v.F = append(v.F, r.Intn(2) == 0)
+				v.G = append(v.G, math.Float64frombits(r.Uint64()))
+				v.H = append(v.H, c03bytes(r, r.Intn(5)))
+				v.V = append(v.V, c03edge32[r.Intn(len(c03edge32))])
+				v.W = append(v.W, c03edgeU64[r.Intn(len(c03edgeU64))])
+			}
+			if r.Intn(2) == 0 {
+				x := uint32(c03edgeU64[r.Intn(len(c03edgeU64))])
+				v.U = &x
+			}
+			return v
+		default:
+			v := &c03Deep{X: c03edge64[r.Intn(len(c03edge64))]}
+			mkNested := func() c03Nested {
+				for {
+					if x, kind := c03value(r); kind == "nested" {
+						return *(x.(*c03Nested))
+					}
+				}
+			}
+			v.N = mkNested()
+			for i := r.Intn(3); i > 0; i-- {
+				v.L = append(v.L, mkNested())
+			}
+			if r.Intn(2) == 0 {
+				for {
+					if x, kind := c03value(r); kind == "ints" {
+						v.O = x.(*c03Ints)
+						break
+					}
+				}
+			}
+			return v
+		}
+	}
+	for i := 0; i < c.Pick(300, 6000); i++ {
+		ops := []string{"c03 cfg 4096 " + reg + " -"}
+		for j := 3 + r.Intn(6); j > 0; j-- {
+			v := pbValue()
+			schema := c03schema(reflect.TypeOf(v).Elem())
+			b, err := protobuf.Encode(v)
+			if err != nil {
+				continue
+			}
+			switch r.Intn(8) {
+			case 0, 1, 2:
+			case 3, 4:
+				for k := 1 + r.Intn(3); k > 0; k-- {
+					b = g.mutate(b)
+				}
+			case 5:
+				b = c03bytes(r, r.Intn(30))
+			case 6: // two encodings of the same schema back to back
+				if b2, err := protobuf.Encode(pbValueOf(pbValue, reflect.TypeOf(v))); err == nil {
+					b = append(b, b2...)
+				}
+			default: // entries in another order, unknown field numbers, other wire types
+				b = append(append([]byte{byte(r.Intn(256)), byte(r.Intn(8))}, b...), byte(8*(1+r.Intn(12))+r.Intn(8)), byte(r.Intn(4)))
+			}
+			ops = append(ops, fmt.Sprintf("c03 pb %s %s", schema, h.Hex(b)))
+		}
+		emit("pb", ops...)
 	}
 	// ---- a connection that is reset (a network error that is no time-out) inside or between frames
 	for i := 0; i < c.Pick(150, 2000); i++ {
